@@ -54,6 +54,7 @@ fn run(name: &str, args: &Value) -> Value {
         "c06_history" => c06::history(args),
         "c06_inprocess" => c06::inprocess(args),
         "c06_sink_handed_over" => c06::sink_handed_over(args),
+        "c06_accept_fails" => c06::accept_fails(args),
         "c07_ws" => c07::ws(args),
         "c07_http" => c07::http(args),
         "c19_chunking" => c19::chunking(args),
@@ -67,6 +68,7 @@ fn run(name: &str, args: &Value) -> Value {
         "c10_graceful_stop" => c10::graceful_stop(args),
         "c11_limits" => c11::limits(args),
         "c11_inactive_peer" => c11::inactive_peer(args),
+        "c11_http_peer_gone" => c11::http_peer_gone(args),
         "c12_ws_batch" => c12::ws_batch(args),
         "cfg_journey" => cfg::journey(args),
         "c12_two_batches" => c12::two_batches(args),
@@ -78,6 +80,8 @@ fn run(name: &str, args: &Value) -> Value {
         "c03_fast_reply" => c03::fast_reply(args),
         "c03_subid_collision" => c03::subid_collision(args),
         "c03_mixed_frame" => c03::mixed_frame(args),
+        "c03_late_reply" => c03::late_reply(args),
+        "c03_routing" => c03::routing(args),
         "c04_notifications" => c04::notifications(args),
         "c05_array_vs_single" => c05::array_vs_single(args),
         "c05_close_in_array" => c05::close_in_array(args),
